@@ -45,6 +45,7 @@ func init() {
 	gens["C07"] = func(r *rand.Rand, tier string, emit Emit) {
 		c07router(r, tier, emit)
 		genApp(r, tier, emit)
+		genAppFull(r, tier, emit)
 	}
 	gens["C08"] = withDsl(routerGen(routerKnobs{prof: profDefault, routesMax: 12, reqs: 8, hdrPct: 0, treq: false,
 		sessions: [2]int{2500, 60000}}), 250, 4000)
